@@ -78,30 +78,8 @@ PARAMS: dict[str, dict] = {
 FINITE = {"s": [0.0, 0.5, 1.0], "n": [0, 1, 2], "c": ["a", "b"]}
 
 EXC_NAMES = ["ValueError", "RuntimeError", "TypeError", "ZeroDivisionError", "AssertionError", "StopIteration", "MemoryError", "NotImplementedError", "OSError", "Custom", "CustomValueError", "TrialPruned", "PrunedSub", "KeyboardInterrupt", "KISub"]
-CATCHES = [[], [], ["ValueError"], ["Exception"], ["Custom"], ["ValueError", "Custom"], ["RuntimeError", "TypeError"]]
+CATCHES = [[], [], ["ValueError"], ["Exception"], ["Exception"], ["Exception"], ["Custom"], ["ValueError", "Custom"], ["RuntimeError", "TypeError"]]
 STR_LIKE = (str, bytes, bytearray, memoryview)
-
-
-def _deterministic_future_hash() -> None:
-    """optimize(n_jobs>1) keeps its futures in a *set* and iterates over it (`for f in completed`,
-    `for f in futures: f.result()`): with the default identity hash the order - hence which
-    future is awaited first and which exception is re-raised - depends on memory addresses.
-    Give SimFuture a per-run creation counter as hash (no-op once the kernel does it itself)."""
-    F = sched.SimFuture
-    if F.__hash__ is not object.__hash__:
-        return
-    orig_init = F.__init__
-
-    def __init__(self: Any, sim: Any) -> None:
-        orig_init(self, sim)
-        sim._c02_nfut = getattr(sim, "_c02_nfut", 0) + 1
-        self._c02_seq = sim._c02_nfut
-
-    F.__init__ = __init__  # type: ignore[method-assign]
-    F.__hash__ = lambda self: self._c02_seq  # type: ignore[method-assign,assignment]
-
-
-_deterministic_future_hash()
 
 
 def deployments() -> list[tuple[str, float]]:
@@ -387,12 +365,19 @@ def gen_report_value(rng: random.Random) -> dict:
     return common.weighted(rng, [(_f(rng), 8), ({"k": "nan"}, 1.5), ({"k": "inf"}, 0.7), ({"k": "npf32", "v": 1.5}, 0.5), ({"k": "str", "v": "abc"}, 0.3), ({"k": "none"}, 0.3), ({"k": "int", "v": 2}, 0.7)])
 
 
-def gen_program(rng: random.Random, n_obj: int, names: list[str], p_odd: float, p_raise: float) -> list[dict]:
+def gen_program(rng: random.Random, n_obj: int, names: list[str], p_odd: float, p_raise: float, prefix: list[str] | None = None) -> list[dict]:
+    """`prefix` (BruteForceSampler runs): every program suggests the same names in the same order
+    and raises only after them - the sampler documents that it needs a deterministic program
+    (otherwise its after_trial raises 'param_name mismatch', which is handled but ends the run)."""
     acts: list[dict] = []
-    for _ in range(common.weighted(rng, [(0, 2), (1, 4), (2, 3), (3, 1)])):
-        if names:
-            acts.append({"a": "suggest", "p": rng.choice(names) if rng.random() < 0.93 else rng.choice(sorted(PARAMS))})
-    if rng.random() < 0.45:
+    if prefix is not None:
+        acts = [{"a": "suggest", "p": n} for n in prefix]
+    else:
+        for _ in range(common.weighted(rng, [(0, 2), (1, 4), (2, 3), (3, 1)])):
+            if names:
+                acts.append({"a": "suggest", "p": rng.choice(names) if rng.random() < 0.93 else rng.choice(sorted(PARAMS))})
+    # Trial.report / should_prune raise NotImplementedError for multi-objective studies
+    if rng.random() < (0.45 if n_obj == 1 else 0.06):
         step = 0
         for _ in range(rng.randint(1, 3)):
             acts.append({"a": "report", "v": gen_report_value(rng), "step": step if rng.random() < 0.95 else -1})
@@ -404,7 +389,7 @@ def gen_program(rng: random.Random, n_obj: int, names: list[str], p_odd: float, 
     r = rng.random()
     if r < p_raise:
         name = common.weighted(rng, [("ValueError", 3), ("RuntimeError", 2), ("TypeError", 0.7), ("ZeroDivisionError", 0.7), ("AssertionError", 0.5), ("StopIteration", 0.4), ("MemoryError", 0.3), ("NotImplementedError", 0.3), ("OSError", 0.3), ("Custom", 2), ("CustomValueError", 1), ("TrialPruned", 3), ("PrunedSub", 0.7), ("KeyboardInterrupt", 2.5), ("KISub", 0.5)])
-        pos = rng.randrange(len(acts) + 1) if rng.random() < 0.5 else len(acts)
+        pos = rng.randrange(len(acts) + 1) if rng.random() < (0.5 if prefix is None else 0.1) else len(acts)
         acts = acts[:pos] + [{"a": "raise", "exc": name}]
     elif r < p_raise + p_odd:
         acts.append({"a": "ret", "v": gen_value(rng, n_obj)})
@@ -451,11 +436,11 @@ def _sampler_names(s: dict) -> list[str]:
     return sorted(PARAMS)
 
 
-def gen_pre(rng: random.Random, n_obj: int, names: list[str], heavy: bool) -> tuple[list[dict], list[dict]]:
+def gen_pre(rng: random.Random, n_obj: int, names: list[str], heavy: bool, fixed: bool = False) -> tuple[list[dict], list[dict]]:
     done: list[dict] = []
     for _ in range(common.weighted(rng, [(0, 2 if heavy else 5), (1, 2), (2, 2), (3, 2 if heavy else 0.5)])):
         state = common.weighted(rng, [("COMPLETE", 5), ("PRUNED", 1.5), ("FAIL", 1)])
-        d: dict[str, Any] = {"state": state, "params": [n for n in names if rng.random() < 0.6], "pick": rng.randint(0, 5)}
+        d: dict[str, Any] = {"state": state, "params": [n for n in names if fixed or rng.random() < 0.6], "pick": rng.randint(0, 5)}
         d["values"] = [rng.choice([0.0, 0.5, 1.0, 2.0, -1.0]) for _ in range(n_obj)] if state == "COMPLETE" else None
         d["inter"] = [rng.choice([0.0, 0.5, 1.0, 2.0, 3.0]) for _ in range(rng.randint(0, 3))] if n_obj == 1 else []
         done.append(d)
@@ -482,8 +467,12 @@ def gen_plan(seed: int, run: int, tier: str) -> dict:
     sampler = gen_sampler(rng, n_obj)
     pruner = gen_pruner(rng)
     names = _sampler_names(sampler)
+    prefix = None
+    if sampler["kind"] == "brute" and rng.random() < 0.85:
+        # BruteForceSampler needs one deterministic program: same names, same order, everywhere
+        prefix = names = rng.sample(names, common.weighted(rng, [(1, 4), (2, 3), (3, 1)]))
     heavy = pruner["kind"] != "nop" or sampler["kind"] in ("tpe", "nsgaii")
-    pre_done, pre_enq = gen_pre(rng, n_obj, names, heavy)
+    pre_done, pre_enq = gen_pre(rng, n_obj, names, heavy, prefix is not None)
     cfg: dict[str, Any] = {"deployment": kind, "p_line": 0.0, "p_seam": rng.choice([0.1, 0.3, 0.6]), "pool": rng.choice([1, 2, 3]), "snapshot_interval": rng.choice([2, 5, 100]), "read_block": rng.choice([64, 8192])}
     plan: dict[str, Any] = {"check": ID, "seed": seed, "run": run, "cfg": cfg, "workload": workload, "directions": [rng.choice(["minimize", "maximize"]) for _ in range(n_obj)], "sampler": sampler, "pruner": pruner, "pre_done": pre_done}
     if workload == "optimize":
@@ -493,7 +482,7 @@ def gen_plan(seed: int, run: int, tier: str) -> dict:
         style = common.weighted(rng, [("clean", 1.5), ("mixed", 5), ("wild", 2)])
         p_odd, p_raise = {"clean": (0.0, 0.0), "mixed": (0.2, 0.15), "wild": (0.45, 0.35)}[style]
         plan.update({"n_jobs": n_jobs, "n_trials": n_trials, "catch": rng.choice(CATCHES), "pre_enqueue": pre_enq})
-        plan["programs"] = [gen_program(rng, n_obj, names, p_odd, p_raise) for _ in range(n_trials)]
+        plan["programs"] = [gen_program(rng, n_obj, names, p_odd, p_raise, prefix) for _ in range(n_trials)]
         plan["faults"] = gen_faults(rng, n_trials, 0.18)
         cb: dict[str, Any] = {"stop_at": None, "raise_at": None}
         if rng.random() < 0.2:
@@ -508,7 +497,7 @@ def gen_plan(seed: int, run: int, tier: str) -> dict:
         ntasks = common.weighted(rng, [(1, 5), (2, 5)])
         mode = "threads" if kind == "mem" or rng.random() < 0.5 else "procs"
         plan["mode"] = mode
-        plan["tasks"] = _gen_asktell(rng, n_obj, names, ntasks)
+        plan["tasks"] = _gen_asktell(rng, n_obj, names, ntasks, prefix)
         nslots = 1 + max([o.get("slot", 0) for t in plan["tasks"] for o in t["ops"]] + [0])
         plan["faults"] = gen_faults(rng, nslots, 0.15)
         if ntasks > 1:
@@ -531,7 +520,7 @@ def _gen_tell(rng: random.Random, n_obj: int, slot: int) -> dict:
     return {"op": "tell", "slot": slot, "by": rng.choice(["trial", "number"]), "values": values, "state": state, "skip": rng.random() < 0.4}
 
 
-def _gen_asktell(rng: random.Random, n_obj: int, names: list[str], ntasks: int) -> list[dict]:
+def _gen_asktell(rng: random.Random, n_obj: int, names: list[str], ntasks: int, prefix: list[str] | None = None) -> list[dict]:
     tasks: list[dict] = [{"ops": []} for _ in range(ntasks)]
     nslots = rng.randint(1, 3)
     owner = {}
@@ -540,8 +529,10 @@ def _gen_asktell(rng: random.Random, n_obj: int, names: list[str], ntasks: int) 
         owner[s] = ti
         ops = tasks[ti]["ops"]
         ops.append({"op": "ask", "slot": s})
+        for n in prefix or []:
+            ops.append({"op": "act", "slot": s, "a": {"a": "suggest", "p": n}})
         for _ in range(common.weighted(rng, [(0, 3), (1, 3), (2, 1)])):
-            if names and rng.random() < 0.5:
+            if names and prefix is None and rng.random() < 0.5:
                 ops.append({"op": "act", "slot": s, "a": {"a": "suggest", "p": rng.choice(names)}})
             else:
                 ops.append({"op": "act", "slot": s, "a": {"a": "report", "v": gen_report_value(rng), "step": rng.choice([0, 0, 1, 2])}})
@@ -873,10 +864,18 @@ def _where(e: BaseException) -> str:
     import traceback
 
     tb = traceback.extract_tb(e.__traceback__)
-    for fr in reversed(tb):
-        if "/optuna/" in fr.filename:
-            return "%s:%s" % (fr.filename.split("/optuna/")[-1], fr.name)
+    # the deepest frame in the study/trial layer names the place independently of the storage
+    for pat in ("/optuna/study/", "/optuna/trial/", "/optuna/"):
+        for fr in reversed(tb):
+            if pat in fr.filename:
+                return "%s:%s" % (fr.filename.split("/optuna/")[-1], fr.name)
     return "%s:%s" % (os.path.basename(tb[-1].filename), tb[-1].name) if tb else "?"
+
+
+def _frames(e: BaseException) -> list[str]:
+    import traceback
+
+    return [fr.name for fr in traceback.extract_tb(e.__traceback__)]
 
 
 def _sv(state: Any, values: Any) -> tuple:
@@ -1142,6 +1141,13 @@ def _run_optimize(plan: dict, sim: sched.Sim, ch: sched.Chooser, dep: deploy.Dep
         while x is not None and len(chain) < 8:
             chain.append(x)
             x = x.__cause__ or x.__context__
+        if isinstance(e, optuna.exceptions.UpdateFinishedTrialError) and not any(e is a for a in allowed) and "_pop_waiting_trial_id" in _frames(e):
+            # ask() listed a WAITING trial that another worker claimed *and finished* before this
+            # worker's claim: the storage's UpdateFinishedTrialError escapes from ask().  An
+            # exception inside ask() is outside C02's clauses and nobody's trial is ill-formed
+            # (C04 counts it too): observation only; (d), (f), (g) are not evaluated on this run.
+            extra["obs_ask_lost_to_finished_trial"] = 1
+            return common.result(sim, ch, "ok", nontrivial=nontrivial, extra_counters=extra)
         if not any(e is a for a in allowed) and any(c is a for c in chain for a in R["cb_exc"] + [se for ses in R["sampler_exc"].values() for se in ses]):
             # raised while optuna was handling the sampler's / callback's exception (e.g. the
             # "Should not reach" assertion in _run_trial's finally): the trial is well-formed,
@@ -1156,10 +1162,11 @@ def _run_optimize(plan: dict, sim: sched.Sim, ch: sched.Chooser, dep: deploy.Dep
 
     # ------------------------------------------------------------------ (f) callbacks
     started_nums = set(tr.number for tr in started)
+    by_num = {tr.number: tr for tr in trials}
     for num, cbl in sorted(R["cb"].items()):
         if num not in started_nums:
             return violation("callbacks", "callback for a trial not run by this call", "callback invoked for trial %d" % num)
-        fin = _sv(trials[num].state, trials[num].values)
+        fin = _sv(by_num[num].state, by_num[num].values)
         for arg, stored in cbl:
             if arg[0] not in ("COMPLETE", "PRUNED", "FAIL") or stored is None or stored[0] not in ("COMPLETE", "PRUNED", "FAIL"):
                 return violation("callbacks", "called before the trial was finished", "callback for trial %d got a %s trial while the storage had %s" % (num, arg[0], stored))
@@ -1277,6 +1284,10 @@ def _run_asktell(plan: dict, sim: sched.Sim, ch: sched.Chooser, dep: deploy.Depl
                     trace.append("%s: ask -> #%d = trial %d" % (name, s, tr.number))
                     sim.note("ask", name, s, tr.number)
                     continue
+                if s not in slots and concurrent and isinstance(s, int):
+                    # the other task asks for this trial: wait for it (bounded on the virtual
+                    # clock, so that a plan whose ask was deleted stays valid)
+                    sim.block_until(lambda s=s: s in slots, "slot", 5.0)
                 sl = slots.get(s)
                 if sl is None:
                     sim.count("op_skipped_no_slot")
